@@ -2,7 +2,7 @@
 """Automatic behaviour-preserving variants of every function a rule module looks at (robustness of the rules against
 refactors that do not change behaviour; DESIGN.md 4.4).
 
-usage: autoequiv.py <PROP> [--transform rename|preinc|noop|parens|unconst] [--bisect]
+usage: autoequiv.py <PROP> [--transform rename|preinc|noop|parens|unconst|braces|ltplus] [--bisect]
 
   rename : every local variable and parameter of every analysed function body gets a new name (whole-word replacement inside
            the function's line range, never after '.', '->' or '::'; names that coincide with a member/callee name used in the
@@ -131,7 +131,45 @@ def t_unconst(lines, fn):
     return cnt
 
 
-TRANSFORMS = {"rename": t_rename, "noop": t_noop, "preinc": t_preinc, "parens": t_parens, "unconst": t_unconst}
+def _balanced(t):
+    return t.count("(") == t.count(")")
+
+
+def t_braces(lines, fn):
+    """`if (c)\n  stmt;` -> `if (c)\n  { stmt; }` for single-line bodies of if/for/while/else (no-op for the compiler)"""
+    cnt = 0
+    i = fn["line"] - 1
+    end = min(fn["endline"], len(lines))
+    while i < end - 1:
+        l, nxt = lines[i], lines[i + 1]
+        m = re.match(r"^(\s*)(?:(?:if|for|while)\s*\(.*\)|else)\s*$", l.rstrip("\n"))
+        if m and _balanced(l) and not l.lstrip().startswith(("#", "//")) and '"' not in nxt and "//" not in nxt:
+            body = nxt.rstrip("\n")
+            mb = re.match(r"^(\s+)([^{};#][^{};]*;)\s*$", body)
+            if mb and len(mb.group(1)) > len(m.group(1)) and _balanced(body) and not mb.group(2).lstrip().startswith(("if", "for", "while", "else", "do", "case", "default")):
+                lines[i + 1] = "%s{ %s }\n" % (mb.group(1), mb.group(2))
+                cnt += 1
+                i += 2
+                continue
+        i += 1
+    return cnt
+
+
+def t_ltplus(lines, fn):
+    """for-loop bound `i <= E;` -> `i < E + 1;` when E is a simple expression (integer loops): the realistic respelling of an inclusive bound"""
+    cnt = 0
+    for i in range(fn["line"] - 1, min(fn["endline"], len(lines))):
+        l = lines[i]
+        if "for (" not in l or '"' in l:
+            continue
+        new, k = re.subn(r"(for \(int \w+ = [^;]+; (\w+) <)= ([\w\.\->]+(?:\(\))?)(; (?:\+\+\2|\2\+\+)\))", r"\g<1>\3 + 1\4", l)
+        if k:
+            lines[i] = new
+            cnt += k
+    return cnt
+
+
+TRANSFORMS = {"rename": t_rename, "noop": t_noop, "preinc": t_preinc, "parens": t_parens, "unconst": t_unconst, "braces": t_braces, "ltplus": t_ltplus}
 
 
 def variant(fns, transform, scratch):
